@@ -91,6 +91,9 @@ int write_hex(Memory *memory, FILE *out)
         len = -1;
       }
 
+      // Nothing was assembled into this page: go on with the next one.
+      if (!memory->in_use(n)) { n |= memory->get_page_size() - 1; }
+
       continue;
     }
 
